@@ -9,6 +9,7 @@ and breaks the proof.  Fail-closed: a construct outside the subset below raises 
 
 Subset of `sample`:
   x = [sympify(] self.<attr>.subs(state) [)] [.simplify()]      local x  := parameter <attr>
+  x = e                                                          local x  := expression e (inlined)
   L = []; for v in self.<attr>: p = v.subs(state); if..: raise..; L.append(float(p))
                                                               local L  := list parameter <attr>
   if <anything>: raise ...                                       ignored (parameter validation)
@@ -101,6 +102,8 @@ class FamilyReader:
         if isinstance(n, ast.Name):
             if n.id in env and env[n.id][0] == "param":
                 return ("param", env[n.id][1])
+            if n.id in env and env[n.id][0] == "expr":
+                return env[n.id][1]
             raise Unsupported(self.fn, n, f"unknown local {n.id}")
         if isinstance(n, ast.Constant) and isinstance(n.value, int) and not isinstance(n.value, bool):
             return ("const", n.value)
@@ -158,7 +161,7 @@ class FamilyReader:
                 elif isinstance(st.value, ast.List) and not st.value.elts:
                     env[st.targets[0].id] = ("emptylist",)
                 else:
-                    raise Unsupported(self.fn, st, "assignment outside the subset")
+                    env[st.targets[0].id] = ("expr", self.expr(st.value, env))      # x = <expression of the subset>
             elif isinstance(st, ast.For):
                 self.list_loop(st, env)
             elif isinstance(st, ast.If) and all(isinstance(b, ast.Raise) for b in st.body) and not st.orelse:
